@@ -153,11 +153,16 @@ func (cc *ClientConn) Authorize(access int) bool {
 
 // Disconnect notifies other clients that a client has disconnected and closes the connection.
 func (cc *ClientConn) Disconnect() {
+	// The user leaves the registry and the others are told under the client's lock: the idle check announces a change
+	// of this user under the same lock and only while the user is still registered, so that no "user changed" notice
+	// can follow the "user left" notice (clients would list the user again, for good).
+	cc.mu.Lock()
 	cc.Server.ClientMgr.Delete(cc.ID)
 
 	for _, t := range cc.NotifyOthers(NewTransaction(TranNotifyDeleteUser, [2]byte{}, NewField(FieldUserID, cc.ID[:]))) {
 		cc.Server.outbox <- t
 	}
+	cc.mu.Unlock()
 
 	if err := cc.Connection.Close(); err != nil {
 		cc.Server.Logger.Debug("error closing client connection", "RemoteAddr", cc.RemoteAddr)
